@@ -547,8 +547,12 @@ pub fn c19(tier: Tier) -> i32 {
         Alternate,
         BothVestFirst,
         BothFallbackFirst,
+        /// a detail record with a vest value but no VestDate (the entry's own date is the vest date)
+        VestValueOnly,
+        /// the same record also carrying the fallback price: the vest value is preferred
+        VestValueAndFallbackInOneRecord,
     }
-    let pats = [Pat::AllVest, Pat::AllFallback, Pat::Alternate, Pat::BothVestFirst, Pat::BothFallbackFirst];
+    let pats = [Pat::AllVest, Pat::AllFallback, Pat::Alternate, Pat::BothVestFirst, Pat::BothFallbackFirst, Pat::VestValueOnly, Pat::VestValueAndFallbackInOneRecord];
     let jobs: Vec<(NaiveDate, u32)> = deposits.iter().flat_map(|d| (0..(1u32 << offsets.len())).map(move |m| (*d, m))).collect();
     let ctxr: &Ctx = &ctx;
     let mut acc = jobs
@@ -579,11 +583,13 @@ pub fn c19(tier: Tier) -> i32 {
                                 entries.push(fb);
                                 entries.push(vest);
                             }
+                            Pat::VestValueOnly => entries.push(json!({"Date": us(d), "Action": "Lapse", "Symbol": sym_file, "TransactionDetails": [{"Details": {"VestFairMarketValue": format!("${}", vest_val(*o))}}]})),
+                            Pat::VestValueAndFallbackInOneRecord => entries.push(json!({"Date": us(d), "Action": "Lapse", "Symbol": sym_file, "TransactionDetails": [{"Details": {"VestFairMarketValue": format!("${}", vest_val(*o)), "FairMarketValuePrice": format!("${}", fb_val(*o))}}]})),
                         }
                     }
                     let exp_off: Option<i64> = if present.contains(&0) { Some(0) } else { present.iter().copied().filter(|o| (-7..=-1).contains(o)).max() };
                     let is_vest = |o: i64| match pat {
-                        Pat::AllVest | Pat::BothVestFirst | Pat::BothFallbackFirst => true,
+                        Pat::AllVest | Pat::BothVestFirst | Pat::BothFallbackFirst | Pat::VestValueOnly | Pat::VestValueAndFallbackInOneRecord => true,
                         Pat::AllFallback => false,
                         Pat::Alternate => o.rem_euclid(2) == 0,
                     };
@@ -626,7 +632,7 @@ pub fn c19(tier: Tier) -> i32 {
                                         if buys[0].date != want_date {
                                             push(&mut acc, "wrong-entry", format!("BUY dated {} but the entry to use is at offset {eo} = {want_date}", buys[0].date));
                                         } else if price.amount != want_price {
-                                            let clause = if matches!(pat, Pat::BothVestFirst | Pat::BothFallbackFirst) && price.amount == fb_val(eo) { "fallback-price-preferred-over-vest-value" } else { "wrong-price" };
+                                            let clause = if matches!(pat, Pat::BothVestFirst | Pat::BothFallbackFirst | Pat::VestValueAndFallbackInOneRecord) && price.amount == fb_val(eo) { "fallback-price-preferred-over-vest-value" } else { "wrong-price" };
                                             push(&mut acc, clause, format!("BUY priced {} but the entry's {} is {want_price}", price.amount, if is_vest(eo) { "vest-date market value" } else { "fallback price" }));
                                         } else if *amount != dec("10") || buys[0].ticker != "XYZ" {
                                             push(&mut acc, "wrong-entry", format!("BUY line {}", alpha::dsl_line(buys[0])));
